@@ -589,4 +589,50 @@ theorem sparse_mergeWith_nonfinite {S : Type} [StoreI S] (fuel : Nat) (o : S)
 
 end sparseMerge
 
+/-! ## F. `mapping.NewDefaultMapping` -/
+
+section mappingCtor
+open DDS.Gen.Mapping DDS.Gen.MappingCtor DDS.GenMapping DDS.RealMap
+
+/-- in the generic `MOps` reading (any number type): the default mapping IS the logarithmic constructor -/
+theorem newDefaultMapping_eq {F : Type} [MOps F] (α : F) : NewDefaultMapping α = NewLogarithmicMapping α := rfl
+
+/-- over the reals, `0 < α < 1`: the model's parameters `Mapping.ofAlpha .log α`, nil error -/
+theorem newDefaultMapping_ofAlpha (α : ℝ) (h0 : 0 < α) (h1 : α < 1) :
+    NewDefaultMapping α = (toGenLog (Mapping.ofAlpha .log α), GoErr.nil) := by
+  rw [newDefaultMapping_eq]; exact newLog_ofAlpha α h0 h1
+
+/-- refused outside `(0, 1)` (C13) -/
+theorem newDefaultMapping_err (α : ℝ) (h : α ≤ 0 ∨ 1 ≤ α) : (NewDefaultMapping α).2 ≠ GoErr.nil := by
+  rw [newDefaultMapping_eq]; exact newLog_ofAlpha_err α h
+
+/-- what the constructor returns: kind logarithmic (the Go type `*LogarithmicMapping`), `gamma = (1+α)/(1-α)`,
+    index offset `0`, multiplier `1 / ln gamma`, and its `RelativeAccuracy()` is `α` again -/
+theorem newDefaultMapping_params (α : ℝ) (h0 : 0 < α) (h1 : α < 1) :
+    (NewDefaultMapping α).1.gamma = (1 + α) / (1 - α) ∧
+    (NewDefaultMapping α).1.indexOffset = 0 ∧
+    (NewDefaultMapping α).1.multiplier = 1 / Real.log ((1 + α) / (1 - α)) ∧
+    LogarithmicMapping.RelativeAccuracy (NewDefaultMapping α).1 = α := by
+  rw [newDefaultMapping_ofAlpha α h0 h1]
+  refine ⟨?_, ?_, ?_, ?_⟩
+  · simp [Mapping.ofAlpha, Mapping.gammaOfAlpha, Mapping.one]
+  · simp [Mapping.ofAlpha, Mapping.defaultOffset]
+  · simp [Mapping.ofAlpha, Mapping.gammaOfAlpha, Mapping.multiplier, Mapping.one]
+  · rw [log_relativeAccuracy _ rfl]; exact relativeAccuracy_ofAlpha .log h0 h1
+
+/-- the documented default of the library's users (`relativeAccuracy = 0.01`): `gamma = 101/99` -/
+theorem newDefaultMapping_one_percent :
+    (NewDefaultMapping (1 / 100 : ℝ)).2 = GoErr.nil ∧
+    (NewDefaultMapping (1 / 100 : ℝ)).1.gamma = 101 / 99 ∧
+    (NewDefaultMapping (1 / 100 : ℝ)).1.indexOffset = 0 ∧
+    LogarithmicMapping.RelativeAccuracy (NewDefaultMapping (1 / 100 : ℝ)).1 = 1 / 100 := by
+  have h0 : (0 : ℝ) < 1 / 100 := by norm_num
+  have h1 : (1 / 100 : ℝ) < 1 := by norm_num
+  obtain ⟨hg, ho, _, hr⟩ := newDefaultMapping_params (1 / 100) h0 h1
+  refine ⟨?_, ?_, ho, hr⟩
+  · rw [newDefaultMapping_ofAlpha _ h0 h1]
+  · rw [hg]; norm_num
+
+end mappingCtor
+
 end DDS.GenDecodeWrap
